@@ -611,6 +611,24 @@ func C13(p *core.Program, r *core.Report) {
 		r.Add("L6", e.name+": the options and the page URL are only read", p.Pos(fn.Pos()), len(hits) == 0, strings.Join(hits, "; "))
 	}
 
+	// L7: "Result.URL is the supplied page URL": ApplyForURL is given the page URL as a string. The
+	// URL it works with (and reports) must be that string parsed as a URL reference, fragment
+	// included: url.ParseRequestURI is documented to assume a URL without fragment and takes
+	// "#section" for a part of the path (http://h/a#b -> http://h/a%23b).
+	if au := mustInl(p, r, "L7", core.ModPath+".ApplyForURL"); au != nil {
+		cn := core.NewCanon(p)
+		n, bad := 0, ""
+		for _, in := range instrsOf(au) {
+			if st, ok := in.(*ssa.Store); ok && strings.HasSuffix(cn.Of(st.Addr), ".OriginalURL") {
+				n++
+				if v := cn.Of(st.Val); v != "url.Parse($0)#0" {
+					bad = v
+				}
+			}
+		}
+		r.Add("L7", "ApplyForURL: the page URL is the supplied string parsed as a URL (fragment-aware)", p.Pos(au.Pos()), n >= 1 && bad == "", fmt.Sprintf("%d stores to OriginalURL; other value: %s", n, bad))
+	}
+
 	// the option fields are read only to steer
 	for _, b := range ap.Blocks {
 		for _, in := range b.Instrs {
